@@ -8,7 +8,8 @@
 From Coq Require Import List Arith ZArith Bool.
 From Verif Require Import lib.Wire c15.Lts c15.Model c15.Spec c15.Proofs c15.Proofs_Chan c15.Proofs_Loc
   c15.Proofs_List c15.Proofs_Safe c15.Proofs_Init c15.Proofs_Once c15.Proofs_Thm c15.Proofs_Grow
-  c15.Proofs_First c15.Proofs_Wild c15.Proofs_Live c15.Proofs_Dead c15.Proofs_Pend.
+  c15.Proofs_First c15.Proofs_Wild c15.Proofs_Live c15.Proofs_Dead c15.Proofs_Pend c15.Proofs_Idx c15.Proofs_Prog
+  c15.Proofs_Valid c15.Proofs_WildOK.
 Import ListNotations.
 
 (* the checked tie: a label trace accepted by conform_case's search is the
@@ -146,16 +147,34 @@ Print Assumptions c15_wildcard_same_rules.
    thread can take a step unless it is sending to a full open channel, in which
    case the channel's consumer (if a receive is pending) or its drainer (if
    Close has started) can take a step.  So every thread waiting for n.lk waits
-   for a thread that waits only for a live consumer or for Close.  (Not covered by
-   a theorem: the wildcard write-lock chain - pending writer waits for the readers
-   counted in rdrs - the wg.Wait of wildcard Close on its drainer, and the index /
-   existence side conditions needed to quantify over every unfinished thread.) *)
+   for a thread that waits only for a live consumer or for Close.  (Kept as the
+   node-lock instance; the general statement is c15_no_deadlock below.) *)
 Theorem c15_no_deadlock_partial : forall st sched n nd t, initial st ->
   nth_error (nodes (run step st sched)) n = Some nd -> holder nd = Some t ->
   in_region (run step st sched) n t /\
   (enabled (run step st sched) t \/ exists x, stalled_on_full (run step st sched) x).
 Proof. exact no_deadlock_partial_l. Qed.
 Print Assumptions c15_no_deadlock_partial.
+
+(* NO DEADLOCK, as a state-predicate progress theorem over every schedule (not
+   liveness under fairness, DESIGN.md section 10): in every reachable state in
+   which some operation (Emitter(), Emitter.Close, Emit, Subscribe incl. its replay
+   goroutines, Subscription.Close) is unfinished, some thread can take a step that
+   is not an environment stimulus - provided every full open channel has a receive
+   pending or its Close has started (consumers_live).  All lock-wait chains are
+   covered: node lock -> holder inside the region (no leak) -> channel room;
+   wildcard write lock -> announced writer -> readers (counted by rdrs) -> channel
+   room; wildcard Close -> its drainer; the bus lock is never waited for. *)
+Theorem c15_no_deadlock : forall st sched, fresh_init st ->
+  consumers_live (run step st sched) -> in_flight (run step st sched) = true -> some_progress (run step st sched).
+Proof. exact no_deadlock_l. Qed.
+Print Assumptions c15_no_deadlock.
+
+Theorem c15_init_state_fresh_init : forall nt sl ml el,
+  fresh_init (init_state nt (map (fun p => new_sub (fst p) (snd p)) sl) (map (fun p => new_emitter (fst p) (snd p)) ml)
+                         (map (fun p => new_emit (fst p) (snd p)) el)).
+Proof. exact init_state_fresh_init. Qed.
+Print Assumptions c15_init_state_fresh_init.
 
 (* the same for holders of the wildcard read lock *)
 Theorem c15_reader_progress_partial : forall st sched k e n todo, initial st ->
@@ -255,4 +274,15 @@ Example ex_stalled :
 Proof.
   split; [exact (init_state_initial 1 [(Some [0], 0)] [new_emitter 0 false] [(0, 100%Z)])|].
   vm_compute. split; [eexists; split; reflexivity|]. split; [reflexivity|]. eexists. repeat split.
+Qed.
+
+(* the hypotheses of c15_no_deadlock are satisfiable in a state with an unfinished
+   Emit: the stalled state above after its consumer started a receive *)
+Example ex_no_deadlock_hyps :
+  let st := run step ex_init (ex_sched ++ [TReq 0]) in
+  fresh_init ex_init /\ consumers_live st /\ in_flight st = true.
+Proof.
+  split; [exact (init_state_fresh_init 1 [(Some [0], 0)] [(0, false)] [(0, 100%Z)])|]. split; [|vm_compute; reflexivity].
+  intros s c H. destruct s as [|s]; [|vm_compute in H; destruct s; discriminate].
+  vm_compute in H. inversion H; subst. intros _ R. vm_compute in R. discriminate.
 Qed.
